@@ -616,7 +616,7 @@ def check(run, prog):
 
     rule_last_element(run, prog)
     from .c02_condition_scan import rule_condition_scan
-    rule_condition_scan(run, prog)           # R-2.6
+    rule_condition_scan(run, prog)           # R-2.7
 
 
 def _ancestors(n):
